@@ -110,6 +110,14 @@ def gen_prices(rng, n, style="walk"):
     inside | repeat | inside_then_walk"""
     if style in ("inside", "repeat"):
         return gen_inside(rng, n, repeat=style == "repeat")
+    if style in ("flat_then_walk", "zerovol_then_walk"):
+        # a long quiet opening (flat candles / no volume), then ordinary trading: readings that are
+        # legitimately exactly 0 at the start of a series
+        k = rng.randint(3, max(4, n // 2))
+        head = gen_prices(rng, k, "flat" if style == "flat_then_walk" else "zero_vol")
+        if style == "flat_then_walk" and rng.random() < 0.5:
+            head = [(o, h, l, c, 0) for o, h, l, c, v in head]
+        return head + gen_prices(rng, n - k, "walk")
     if style == "inside_then_walk":
         k = max(2, n // 2)
         head = gen_inside(rng, k, repeat=rng.random() < 0.5)
